@@ -169,10 +169,13 @@ func checkTypeSystem(c *core.Ctx, orderProp bool) {
 	infos := map[int]*info{}
 	var nontrivial int64
 	id := 0
+	var handItems []SDLItem // when set: a hand-written list of definitions whose order must not matter
 	addCase := func(doc *ASDoc, fault *SchemaFault, handText string) {
 		var items []SDLItem
 		if doc != nil {
 			items = doc.Items()
+		} else if handItems != nil {
+			items = handItems
 		} else {
 			items = []SDLItem{{Text: handText}}
 		}
@@ -191,7 +194,7 @@ func checkTypeSystem(c *core.Ctx, orderProp bool) {
 			v0.Files = []string{"schema.graphql"}
 		}
 		variants = append(variants, v0)
-		for p := 0; p < nperm && doc != nil; p++ {
+		for p := 0; p < nperm && (doc != nil || handItems != nil); p++ {
 			variants = append(variants, permuteItems(items, rng, inv))
 		}
 		spec, ok := parseForSpec(v0.Sources)
@@ -250,6 +253,12 @@ func checkTypeSystem(c *core.Ctx, orderProp bool) {
 		for _, t := range handSchemas {
 			addCase(nil, nil, t)
 		}
+	} else {
+		for _, its := range handOrderItems {
+			handItems = its
+			addCase(nil, nil, "")
+		}
+		handItems = nil
 	}
 	// generator intent (three-way agreement): valid must load, faulty must not
 	for _, inf := range infos {
@@ -325,6 +334,38 @@ func sourcesJSON(ss []*ast.Source) []map[string]string {
 }
 
 // corner cases written by hand (valid and invalid; the specification decides)
+// hand-written definition lists for the order property: types that exist only
+// through extensions and are referred to by other extensions, interfaces
+// declared after their implementers, roots declared after the schema
+// definition, directives used before they are declared.
+func ordItems(texts ...string) []SDLItem {
+	var out []SDLItem
+	for _, t := range texts {
+		it := SDLItem{Text: t}
+		f := strings.Fields(t)
+		if len(f) > 2 && f[0] == "extend" {
+			it.Ext = true
+			it.Key = f[2]
+			it.Names = []string{f[2]}
+		} else if len(f) > 1 {
+			it.Names = []string{strings.TrimPrefix(f[1], "@")}
+		}
+		out = append(out, it)
+	}
+	return out
+}
+
+var handOrderItems = [][]SDLItem{
+	ordItems("extend type Review implements Entity { id: ID }", "extend interface Entity { id: ID }", "type Query { r: Review e: Entity }"),
+	ordItems("extend union SearchResult = Product", "extend type Product { id: ID }", "union SearchResult = Query", "type Query { s: SearchResult }"),
+	ordItems("extend type Review implements Entity & Node { id: ID }", "extend interface Entity implements Node { id: ID }", "extend interface Node { id: ID }", "extend type Review { body: String }", "type Query { r: Review }"),
+	ordItems("type T implements I { x: Int }", "interface I implements J { x: Int }", "interface J { x: Int }", "extend type T implements J", "type Query { t: T }"),
+	ordItems("schema { query: Root mutation: Mut }", "extend schema @tag", "directive @tag on SCHEMA | OBJECT", "type Root @tag { a: Int }", "extend type Mut { m: Int }"),
+	ordItems("extend enum Color { BLUE }", "extend enum Color { GREEN }", "enum Color { RED }", "type Query { c(d: Color = GREEN): Color }", "extend input Filter { c: Color = BLUE }", "extend type Query { f(x: Filter): Int }"),
+	ordItems("extend scalar Date @tag", "scalar Date", "directive @tag repeatable on SCALAR", "extend scalar Date @tag", "type Query { d: Date }"),
+	ordItems("extend type Query { later: Later }", "extend type Later { x: Int }", "extend type Query { u: U }", "extend union U = Later", "extend type Query { first: Int }"),
+}
+
 var handSchemas = []string{
 	"type Query { a: Int }",
 	"type Query { a: Int } type Query { b: Int }",
